@@ -2,7 +2,7 @@ import Rustic.Model.Check
 import Rustic.Gen.Constants
 import Driver.Util
 /-! `c05 chk <label> <abstract repository state…> | <raw store, ignored here>` — see harness/src/c05.rs.
-Prints `errs=<sorted finding kinds|none|cmd-err> restore=<ok|bad>`. -/
+Prints `errs=<sorted finding kinds|none|cmd-err> restore=<ok|bad|->` (`-` when errs ≠ none). -/
 namespace Driver.C05
 open Rustic.Check
 
@@ -191,6 +191,8 @@ def handle : List String → String
           match checkW false sizes true r lkc fuel with
           | .cmdErr => "cmd-err"
           | .findings es => showErrs es
+        -- the restore verdict is compared only when check is clean (see harness/src/c05.rs `exec`)
+        if errs != "none" then s!"errs={errs} restore=-" else
         s!"errs={errs} restore={if restoreOk r lk fuel then "ok" else "bad"}"
       | _, _ => "bad-op"
   | _ => "bad-op"
